@@ -63,3 +63,14 @@ TEXT = dict(
     text='C19_roundtrip / C19_roundtrip_convert (theorems for EVERY chain of files within the decidable scope csvUnambiguousB, all options incl. degrees: developer fields through the description lists of writer and reader, any number of sub-field placeholders reverted, component targets removed = the fields flagged expanded, scaled arrays, the encoder gate), C19_sequences; text layer: C19_int_text_roundtrip (parse(format n) = n for ParseInt/ParseUint at every bit size, range and sign errors), C19_csv_quoting_roundtrip (encoding/csv reads back any cells writeCell wrote; commas counted by the padding pass = separators), C19_lines_roundtrip, C19_copy_all_lines (lines of any length: KF-C19-7 fixed), C19_columns_text (every line of the TEXT has the header column count as encoding/csv counts, any files), C19_roundtrip_text (FIT → CSV text → FIT under the explicit float-text hypothesis FloatOK); C19_columns / _trim, C19_tables and the cell-level theorems (scalar, array, scaled with the arithmetic of C12, unknown, developer, sub-field) as before. The scope predicate is evaluated by the driver on every generated input (about 95 % inside; reasons of the rest counted into the evidence) and the property predicate on the implementation output.',
     note='Float text (strconv.FormatFloat/ParseFloat) and unicode.IsPrint beyond ASCII stay assumptions (FloatOK is an explicit hypothesis, not an axiom); the degrees arithmetic is a parameter taken as the identity. Finding of this wave: KF-C19-7 (64 KiB line limit of the padding pass), fixed in /repo a4f13c7.',
 )
+
+# --- tie by translation (translators/go2lean, notes/go2lean.md; agreement theorems in lean/FitProps/C19Go2Lean.lean).
+# Kept as a separate block so that it never collides with edits of the dictionary above.
+PROP['regen'] = PROP['regen'] + ['go2lean:basetype']
+PROP['go2lean_diff'] = []      # lean/Go2LeanDiff/<Topic>.lean: search for a differing argument when an agreement theorem breaks
+PROP['theorems'] = PROP['theorems'] + [
+    'Fit.C19.C19_go2lean_names',
+    'Fit.C19.C19_go2lean_fromString_other',
+    'Fit.C19.C19_go2lean_string_other']
+PROP['trusted_base'] = PROP['trusted_base'] + [
+    "translators/go2lean (Go→Lean for a small subset of Go, notes/go2lean.md) re-translates BaseType.String / basetype.FromString from the current source on every run; the agreement theorems *_go2lean_* state that the translated functions equal the hand-written model functions for all arguments; trusted: the translator's rendering of the subset (go/types computes constants and types) and FitModel/GoPrelude.lean"]
